@@ -18,3 +18,4 @@ CHECK = dict(
     assumptions=ENUMX_ASSUME + ["at most 4 duties share one deadline (the output channel holds 10; bigger bursts race the consumer by design)"],
     budget_s={"quick": 100, "thorough": 1500},
 )
+CHECK["claim"] += ' Fifth session, part F (instants off the grid): deadlines with sub-millisecond parts, two in the same millisecond, two one nanosecond apart; the clock visits every truncation / rounding instant (ms, us, +-1 ns) of every deadline; every interleaving of the registrations (every subset, every order) with that walk, three map rotations, both select orders.'
